@@ -9,11 +9,11 @@ def suite_histories(suite, tier, seed):
     quick = tier == 'quick'
     if suite == 'base':
         hs = fsgen.scripted()
-        hs += fsgen.random_histories(seed, 24 if quick else 400, 50 if quick else 80)
+        hs += fsgen.random_histories(seed, 24 if quick else 2500, 50 if quick else 80)
         return hs, dict(crash=0, remount=True)
     if suite == 'crash':
         hs = fsgen.scripted()
-        hs += fsgen.random_histories(seed + 7, 12 if quick else 200, 40 if quick else 60)
+        hs += fsgen.random_histories(seed + 7, 12 if quick else 300, 40 if quick else 60)
         return hs, dict(crash=120 if quick else 1000, remount=False)
     if suite == 'tours':
         import tours
